@@ -175,12 +175,18 @@ def highlevel(chk, rng, quick):
             forcing = np.zeros_like(vel)
             k0, c0 = 3.0e2, 0.7
             reset = bool(trial % 2)
+            # parameters the law does not depend on: grid origin (None = h/2) and the start of the forcing clock
+            sfrac = [None, 0.0, 0.25, 0.5][(trial + D) % 4]
+            t_start = [0.0, 1.75][(trial // 2 + D) % 2]
+            okw = {"start_time": t_start}
+            if sfrac is not None:
+                okw["eul_grid_coord_shift"] = sfrac * h
             if D == 2:
                 body = ea.Cylinder(np.array([1.5, 1.4, 0.0]), np.array([0.0, 0.0, 1.0]), np.array([1.0, 0.0, 0.0]), 1.0, 0.3, density=1e3)
                 inter = sps.RigidBodyFlowInteraction(
                     rigid_body=body, eul_grid_forcing_field=forcing, eul_grid_velocity_field=vel, virtual_boundary_stiffness_coeff=k0,
                     virtual_boundary_damping_coeff=c0, dx=h, grid_dim=2, forcing_grid_cls=sps.CircularCylinderForcingGrid,
-                    num_forcing_points=16, enable_eul_grid_forcing_reset=reset)
+                    num_forcing_points=16, enable_eul_grid_forcing_reset=reset, **okw)
             else:
                 n_el = 6
                 body = ea.CosseratRod.straight_rod(n_el, np.array([1.0, 1.2, 1.1]), np.array([1.0, 0.5, 0.25]) / np.linalg.norm([1.0, 0.5, 0.25]),
@@ -189,14 +195,16 @@ def highlevel(chk, rng, quick):
                 inter = sps.CosseratRodFlowInteraction(
                     cosserat_rod=body, eul_grid_forcing_field=forcing, eul_grid_velocity_field=vel, virtual_boundary_stiffness_coeff=k0,
                     virtual_boundary_damping_coeff=c0, dx=h, grid_dim=3, forcing_grid_cls=sps.CosseratRodElementCentricForcingGrid,
-                    enable_eul_grid_forcing_reset=reset)
+                    enable_eul_grid_forcing_reset=reset, **okw)
             s = inter.forcing_grid.get_maximum_lagrangian_grid_spacing()
             errs = []
             if not np.isclose(inter.virtual_boundary_stiffness_coeff, k0 * s ** (D - 1), rtol=1e-14) or not np.isclose(
                     inter.virtual_boundary_damping_coeff, c0 * s ** (D - 1), rtol=1e-14):
                 errs.append(f"coefficients not scaled by max marker spacing^(D-1): k={inter.virtual_boundary_stiffness_coeff}, c={inter.virtual_boundary_damping_coeff}, s={s}")
             pm_ref = np.zeros_like(inter.lag_grid_position_mismatch_field)
-            clock = 0.0
+            clock = t_start
+            if float(inter.time) != t_start:
+                errs.append(f"forcing clock starts at {inter.time!r}, start_time = {t_start}")
             body_fp = lambda: (fp(body.position_collection), fp(body.velocity_collection), fp(body.director_collection), fp(body.omega_collection))  # noqa: E731
             for step in range(12 if quick else 40):
                 act = rng.choice(["call", "forces", "step", "move", "flow"])
@@ -247,6 +255,12 @@ def highlevel(chk, rng, quick):
                         v_ref = body.velocity_collection[:2, 0:1] + wz * np.stack([-r[1], r[0]])
                         if np.abs(inter.forcing_grid.velocity_field - v_ref).max() > 1e-12:
                             errs.append("marker velocities used by the interaction are not V + Omega x (x_marker - X) of the CURRENT pose")
+                    from . import interp
+
+                    u_ref = interp.reference_interpolation(vel, inter.forcing_grid.position_field, h, 0.5 if sfrac is None else sfrac)
+                    if np.abs(inter.lag_grid_flow_velocity_field - u_ref).max() > 1e-11:
+                        errs.append(f"flow velocity at the markers differs from the documented interpolation (grid origin {sfrac} h) by "
+                                    f"{np.abs(inter.lag_grid_flow_velocity_field - u_ref).max():.3g}")
                     want_vm = inter.lag_grid_flow_velocity_field - inter.forcing_grid.velocity_field
                     want_F = inter.virtual_boundary_stiffness_coeff * inter.lag_grid_position_mismatch_field + inter.virtual_boundary_damping_coeff * want_vm
                     if np.abs(inter.lag_grid_velocity_mismatch_field - want_vm).max() > 1e-14:
